@@ -105,7 +105,10 @@ Definition try_smtp {A} (x : res error A * cst) : res error A * cst :=
 Definition set_info (s : cst) (i : sinfo) : cst :=
   mkSt (inbuf s) (closed s) (shut s) (script s) (panic s) i (ulog s).
 
-Definition ehlo (hello : bytes) (s : cst) : res error unit * cst :=
+(* ClientId::check: a name holding CR or LF cannot be the argument of one EHLO line *)
+Definition hello_ok (hello : bytes) : bool := negb (existsb (fun b => N.eqb b 13 || N.eqb b 10) hello).
+
+Definition ehlo_send (hello : bytes) (s : cst) : res error unit * cst :=
   match try_smtp (command (bs "EHLO " ++ hello ++ CRLF) s) with
   | (Ok r, s1) =>
     match try_smtp (from_response r, s1) with
@@ -116,6 +119,10 @@ Definition ehlo (hello : bytes) (s : cst) : res error unit * cst :=
   | (Err e, s1) => (Err e, s1)
   | (Panic, s1) => (Panic, s1)
   end.
+
+Definition ehlo (hello : bytes) (s : cst) : res error unit * cst :=
+  if hello_ok hello then ehlo_send hello s
+  else (Err (e_client "hello name contains CR or LF"), abort s).
 
 (* SmtpConnection::connect after the TCP connection is up: greeting (no abort on failure), EHLO *)
 Definition connect (hello : bytes) (sc : list chunk) : res error unit * cst :=
